@@ -1,5 +1,6 @@
 import Chewing.Proofs.EditorPure
 import Chewing.Proofs.EditorLinkMeta2
+import Chewing.Proofs.ProcessState
 /-!
 # C17 — Queries are pure, contexts are independent, reset gives a clean editor
 
@@ -31,6 +32,17 @@ lines, or none): `LoggerIsolated` is the full statement, `logger_isolated_refute
 (finding F33, class `F33-logger-global`, reproduced on the real C API in every run by
 `capi_pure.rs`), `logger_isolated_partial` excludes exactly that class.  "From different threads":
 the schedule is not modelled; the C harness runs the two contexts on two threads.
+CREATION is part of the statement: `Proofs/ProcessState.lean` models the process (`Proc`: live contexts by
+id + the logger slot) with `chewing_new2` taking the contents found under ITS syspath / userpath as an
+argument (`CreateArgs`: dictionaries, `swkb.dat`, `symbols.dat`, estimator clock), and
+`creation_args_local` proves that a context's events are a function of its creation arguments and its
+call history only — whatever other contexts, created before or after it with other arguments, do.  That
+the code has no process-wide item besides the reviewed ones (`LOGGER`, `OWNED`, the cfg-guarded hook
+`CALLBACK`; every other `static` is an immutable table) is checked by the translator
+(`tools/extractors/process_state.py`, fails closed on a new stateful item) and pinned by
+`process_state_inventory`; the experiment itself runs on the real C API in `capi_pure.rs` section D
+(contexts with different data directories in one process, both creation orders, interleaved and one
+thread per context, vs. each alone in a fresh process).
 
 **3. Reset gives a clean editor.**  `clear_eq_fresh`: after the F25 fix `e.clear` IS the editor the
 constructors produce from the same configuration, dictionary, tables, layout object and estimator
@@ -319,6 +331,63 @@ theorem contexts_independent_panic (h : List (Op L₁ ⊕ Op L₂)) :
       | outOfFuel => rw [hb] at hr; cases hr
 
 end pair
+
+/-! ### creation: a context is a function of ITS creation arguments and ITS call history -/
+
+section process
+variable (dflt : NewDefaults L)
+
+/-- `chewing_new2` on a free id yields the context made of the code's defaults and of the arguments of
+    THIS call, whatever the process already holds (other contexts, logger slot) -/
+theorem new2_reads_its_arguments_only (p : Proc D L) (id : Nat) (a : CreateArgs D) (hfree : p.ctxs id = none) :
+    ∃ p', p.step env dflt (.new2 id a) = .ok (p', some (id, .created)) ∧ p'.ctxs id = some (Ctx.create dflt a) ∧
+      ∀ j, j ≠ id → p'.ctxs j = p.ctxs j := by
+  refine ⟨{ (p.set id (some (Ctx.create dflt a))) with logger := (p.logger.step (.new2 id a.withLogger)).1 }, ?_, ?_, ?_⟩
+  · simp only [Proc.step, hfree]
+  · simp [Proc.set]
+  · intro j hj; simp [Proc.set, hj]
+
+/-- **`creation_args_local`**: run ANY history of creations (with any arguments: other data directories,
+    other user paths), calls and deletions in a fresh process; if it runs to completion, the events of
+    context `id` are exactly the events of the calls made on `id` — its own `chewing_new2` with its own
+    arguments included — run ALONE in a fresh process, and the context ends in the same state -/
+theorem creation_args_local (id : Nat) (h : List (PCall D L)) (p' : Proc D L) (es : List (Nat × PEv))
+    (hr : (Proc.empty : Proc D L).run env dflt h = .ok (p', es)) :
+    ∃ q', (Proc.empty : Proc D L).run env dflt (PCall.only id h) = .ok (q', PEv.only id es) ∧
+      p'.ctxs id = q'.ctxs id :=
+  Proc.run_local env dflt id h Proc.empty Proc.empty p' es rfl hr
+
+/-- the same from any two processes that agree on context `id` only (e.g. one of them already holds
+    other contexts, or another logger) -/
+theorem creation_args_local_any_process (id : Nat) (h : List (PCall D L)) (p q p' : Proc D L)
+    (es : List (Nat × PEv)) (hpq : p.ctxs id = q.ctxs id) (hr : p.run env dflt h = .ok (p', es)) :
+    ∃ q', q.run env dflt (PCall.only id h) = .ok (q', PEv.only id es) ∧ p'.ctxs id = q'.ctxs id :=
+  Proc.run_local env dflt id h p q p' es hpq hr
+
+/-- a call on one context neither changes nor shows anything of another one (creation and deletion
+    included) -/
+theorem process_step_other (p p' : Proc D L) (c : PCall D L) (e : Option (Nat × PEv)) (id : Nat) (hne : c.id ≠ id)
+    (h : p.step env dflt c = .ok (p', e)) : p'.ctxs id = p.ctxs id ∧ ∀ x, e = some x → x.1 ≠ id :=
+  Proc.step_other env dflt p p' c e id hne h
+
+/-- the translator's inventory of process-wide items that can change: exactly the reviewed ones — the
+    logger slot (modelled, F33), the `OWNED` registry (C15) and the cfg-guarded verification hook -/
+theorem process_state_inventory :
+    Gen.processStateful = [("capi/src/io.rs", "LOGGER"), ("capi/src/io.rs", "OWNED"), ("src/verif.rs", "CALLBACK")] := rfl
+
+/-- of the stateful items, the body of `chewing_new2` names the logger slot only -/
+theorem new2_names_logger_only : Gen.new2Statics = ["LOGGER"] := rfl
+
+/-- non-vacuity: two contexts with different symbol tables in one process, one deleted, the other queried -/
+example (a b : CreateArgs D) :
+    ((Proc.empty : Proc D L).run env dflt [.new2 0 a, .new2 1 b, .call 1 (.q .kbtypeEnumerate), .delete 0]).map (·.2) =
+      .ok [(0, .created), (1, .created), (1, .ev (.ans .none)), (0, .deleted)] := rfl
+
+example (a b : CreateArgs D) :
+    (PCall.only 1 [.new2 0 a, .new2 1 b, .call 1 (.q .kbtypeEnumerate), .delete 0] : List (PCall D L)) =
+      [.new2 1 b, .call 1 (.q .kbtypeEnumerate)] := rfl
+
+end process
 
 /-! ### the process-wide logger slot (finding F33) -/
 
